@@ -61,7 +61,9 @@ class ForLoop:
         self.name = i.name
         self.indexed_symbols = OrderedDict()
 
-    def register_indexed_symbol(self, e, index_function, transpose, tree, index_expr=None):
+    def register_indexed_symbol(
+        self, e, index_function, transpose, tree, index_expr=None, dim=None
+    ):
         if isinstance(index_expr, ca.MX) and index_expr is not self.index_variable:
             F = ca.Function("index_expr", [self.index_variable], [index_expr])
             # expr = lambda ar: np.array([F(a)[0] for a in ar], dtype=int)
@@ -70,6 +72,17 @@ class ForLoop:
             indices = np.array(res[0].T, dtype=int)
         else:
             indices = self.values
+        if dim is not None and np.size(indices) > 0:
+            # Modelica indexing starts from one; a value outside [1, dim] would otherwise be
+            # taken as a Python index counted from the end of the array.
+            if np.min(indices) < 1 or np.max(indices) > dim:
+                raise ValueError(
+                    "Index {} of symbol {} takes values {} in the for loop over {}, which are "
+                    "out of bounds. Index should be in range [1,{}] "
+                    "(Modelica uses 1-based indexing).".format(
+                        index_expr, tree.name, np.ravel(indices).tolist(), self.name, dim
+                    )
+                )
         self.indexed_symbols[e] = ForLoopIndexedSymbol(tree, transpose, index_function(indices - 1))
 
 
@@ -843,6 +856,7 @@ class Generator(TreeListener):
 
         # Check whether we loop over an index of this symbol
         indices = []
+        dims = []
         for_loop = None
         for i, (index_array, shape) in enumerate(zip(tree.indices, shapes)):
             if len(index_array) > len(shape):
@@ -899,12 +913,44 @@ class Generator(TreeListener):
                             )
                         sl = sl - 1
                     elif isinstance(sl, slice):
-                        # Modelica indexing starts from one;  Python from zero.
-                        sl = slice(None if sl.start is None else sl.start - 1, sl.stop, sl.step)
+                        if (
+                            all(isinstance(v, int) for v in (sl.start, sl.stop, sl.step, dim))
+                            and sl.step > 0
+                        ):
+                            if sl.start <= sl.stop:
+                                # A non-empty range: its first and last element must exist.
+                                last = sl.start + (sl.stop - sl.start) // sl.step * sl.step
+                                if sl.start < 1 or last > dim:
+                                    symbol_name = (
+                                        s.name()
+                                        if len(tree.indices) == 1
+                                        else s.name().split(".")[i]
+                                        + " in nested symbol "
+                                        + s.name()
+                                    )
+                                    raise ValueError(
+                                        "Slice {}:{} of symbol {} is out of bounds. "
+                                        "Indices should be in range [1,{}] "
+                                        "(Modelica uses 1-based indexing).".format(
+                                            sl.start, sl.stop, symbol_name, dim
+                                        )
+                                    )
+                                # Modelica indexing starts from one;  Python from zero.
+                                sl = slice(sl.start - 1, last, sl.step)
+                            else:
+                                # An empty range selects nothing, whatever its bounds are
+                                # (Python would count non-positive bounds from the end).
+                                sl = slice(0, 0, sl.step)
+                        else:
+                            # Modelica indexing starts from one;  Python from zero.
+                            sl = slice(
+                                None if sl.start is None else sl.start - 1, sl.stop, sl.step
+                            )
                     else:
                         for_loop = self.for_loops[-1]
 
                 indices.append(sl)
+                dims.append(dim)
 
         if for_loop is not None:
             if isinstance(indices[0], ca.MX):
@@ -927,7 +973,7 @@ class Generator(TreeListener):
                 # map the for loop over it
                 if np.prod(s.shape) != 0:
                     for_loop.register_indexed_symbol(
-                        indexed_symbol, index_function, True, tree, indices[0]
+                        indexed_symbol, index_function, True, tree, indices[0], dims[0]
                     )
             else:
                 s = ca.transpose(s[indices[0], :])
@@ -937,7 +983,7 @@ class Generator(TreeListener):
 
                 if np.prod(s.shape) != 0:
                     for_loop.register_indexed_symbol(
-                        indexed_symbol, lambda i: (indices[0], i), False, tree, indices[1]
+                        indexed_symbol, lambda i: (indices[0], i), False, tree, indices[1], dims[1]
                     )
             return indexed_symbol
         else:
